@@ -14,10 +14,11 @@ def one(args):
         ok, msg = selftest.apply_patch(d, patch)
         if not ok:
             return patch, 'patch does not apply: ' + msg[:200]
-        out = os.path.join(outdir, os.path.basename(patch).rsplit('.', 1)[0] + '.jsonl')
-        if os.path.exists(out):
-            os.remove(out)
-        runner.extract_facts('dbg', repo=d, out=out, target_dir=selftest.TARGET[0])
+        for cfg in CFGS:
+            out = os.path.join(outdir, os.path.basename(patch).rsplit('.', 1)[0] + ('.jsonl' if cfg == 'dbg' else '.%s.jsonl' % cfg))
+            if os.path.exists(out):
+                os.remove(out)
+            runner.extract_facts(cfg, repo=d, out=out, target_dir=selftest.TARGET[0])
         return patch, 'ok'
     except Exception as e:
         return patch, 'error: %s' % str(e)[:300]
@@ -28,6 +29,7 @@ def run_chunk_star(ch):
     return [one(a) for a in ch]
 
 JOBS = 4
+CFGS = os.environ.get('FACT_CFGS', 'dbg').split(',')
 
 if __name__ == '__main__':
     args = sys.argv[1:]
